@@ -39,7 +39,7 @@ def make_object(sx, reg, cls, st, name="obj"):
     decl = {}
     for c in reversed(reg.mro(cls)):
         decl.update(reg.classes.get(c, {}))
-    attrs = {"__class__": Conc(cls)}
+    attrs = {"__class__": Conc(cls), "__frozen__": tuple(decl.get("__frozen__", ()))}
     cell = st.alloc(attrs)
     for a, ty in decl.items():
         if a.startswith("__"):
@@ -111,7 +111,9 @@ def generate(unit, reg, canaries=True, assume_not=(), assume=None):
             nret += 1
             res = o.val if o.kind == "return" else NONE
             sx.cover(s, "%s/cover:return@%d" % (sx.cur_func, nret))
-            extra = {"result": res}
+            # parameter names in postconditions denote the arguments (python code may rebind the local names)
+            extra = dict(params)
+            extra["result"] = res
             if unit.path_hooks and "return" in unit.path_hooks:
                 unit.path_hooks["return"](sx, res, s)
             for (name, src) in con.ensures:
@@ -141,10 +143,10 @@ def generate(unit, reg, canaries=True, assume_not=(), assume=None):
                 ecls, cond = allowed
                 if cond is not True:
                     # evaluated in the state at the raise (old(...) reaches the entry state)
-                    c = sx.eval_spec(cond, s)
+                    c = sx.eval_spec(cond, s, dict(params))
                     sx.oblige(s, "%s/exc:%s:only-if" % (sx.cur_func, ecls), c, "exc", fdef)
                 for (name, src) in con.exc_ensures.get(ecls, []):
-                    c = sx.eval_spec(src, s)
+                    c = sx.eval_spec(src, s, dict(params))
                     sx.oblige(s, "%s/excpost:%s:%s" % (sx.cur_func, ecls, name), c, "exc", fdef)
         else:
             raise Unsupported("%s escapes function body" % o.kind)
